@@ -33,11 +33,14 @@ def plan(tier, seed):
     for big in (60, 400):
         for di in range(len(big_deletions(big))):
             scs.append(dict(big=big, d=di))
+    for n in (5000, 9000):
+        for di in range(len(chain_deletions(n))):
+            scs.append(dict(chain=n, d=di))
     return dict(scenarios=scs, exhaustive=True, chunk=40,
                 menus=dict(n_atoms=list(range(1, N + 1)), variants=['tables=%s extra=%s dup=%s kinds=%s' % v for v in variants()],
                            containers=['list', 'tuple', 'ndarray'], orderings='all permutations for |S|<=3, else sorted/reversed/rotated',
                            pop=['pop()', 'pop(i) for every i in -n..n-1']),
-                bounds=dict(max_atoms=N, large_structures=[60, 400]),
+                bounds=dict(max_atoms=N, large_structures=[60, 400], fully_bonded_chains=[5000, 9000]),
                 rule='one scenario per (structure, index subset); every listing order x container inside; non-trivial = the deletion removes at least one term and keeps at least one atom',
                 assumptions=['structures are chains of <= %d atoms with bonds, angles, dihedrals, one improper' % N,
                              'reference model mc/ref/structure.py'])
@@ -54,6 +57,22 @@ def big_structure(n):
                  charges=[0.001 * i for i in range(n)], groups=[i % 5 for i in range(n)], cell=30 * np.identity(3),
                  bonds=bonds, bond_types=[i % 2 for i in range(len(bonds))], angles=angles, angle_types=[0, 1, 0, 1], dihedrals=dih, dihedral_types=[0, 0, 1], impropers=imp, improper_types=[0],
                  bond_type_coeffs=['b0 1', 'b1 2'], angle_type_coeffs=['a0 1', 'a1 2'], dihedral_type_coeffs=['d0 1', 'd1 2'], improper_type_coeffs=['i0 1'])
+
+
+def chain_structure(n):
+    """fully bonded chain: n-1 bonds, n-2 angles, n-3 dihedrals (thousands of rows per term kind)"""
+    pos = [(1.0 + 0.9 * (i % 30), 1.0 + 0.9 * ((i // 30) % 30), 1.0 + 0.9 * (i // 900)) for i in range(n)]
+    return Atoms(atom_types=[i % 3 for i in range(n)], atom_type_elements=['C', 'N', 'O'], atom_type_labels=['Ca', 'Na', 'Oa'], atom_type_masses=[12.0, 14.0, 16.0], positions=pos,
+                 charges=[0.0001 * (i % 977) for i in range(n)], groups=[i % 5 for i in range(n)], cell=40 * np.identity(3),
+                 bonds=[(i, i + 1) for i in range(n - 1)], bond_types=[i % 2 for i in range(n - 1)], angles=[(i, i + 1, i + 2) for i in range(n - 2)], angle_types=[i % 2 for i in range(n - 2)],
+                 dihedrals=[(i, i + 1, i + 2, i + 3) for i in range(n - 3)], dihedral_types=[0] * (n - 3),
+                 bond_type_coeffs=['b0 1', 'b1 2'], angle_type_coeffs=['a0 1', 'a1 2'], dihedral_type_coeffs=['d0 1'])
+
+
+def chain_deletions(n):
+    out = [[i] for i in (0, 4094, 4095, 4096, 4097, 8190, 8191, 8192, 8193, n - 1) if i < n]
+    out += [list(range(0, 300)), list(range(n - 257, n)), list(range(100, n, 511)), list(range(3000, 3256)) + [4096], list(range(1, 600, 2))]
+    return out
 
 
 def big_deletions(n):
@@ -84,16 +103,19 @@ def check_after(a, ref, sc, what, out):
 
 
 def run(sc, ctx):
-    if 'big' in sc:
+    if 'big' in sc or 'chain' in sc:
         out = dict(evals=0, compared=0, violations=[], outcomes={}, hashes=set(), nontrivial=0)
-        base = big_structure(sc['big']); S = big_deletions(sc['big'])[sc['d']]
+        if 'chain' in sc:
+            sc = dict(sc, big=sc['chain']); base = chain_structure(sc['chain']); S = chain_deletions(sc['chain'])[sc['d']]
+        else:
+            base = big_structure(sc['big']); S = big_deletions(sc['big'])[sc['d']]
         ref0 = RefStructure.of(base)
-        for order in (S, S[::-1]):
-            for cname, conv in CONV.items():
+        for order in ((S, S[::-1]) if len(S) > 1 else (S,)):
+            for cname, conv in (CONV.items() if 'chain' not in sc else [('list', list)]):
                 a = base.copy(); ref = ref0.copy()
                 _, err = call(a.__delitem__, conv(order)); ref.delete(S)
                 out['evals'] += 1; out['compared'] += 1; out['hashes'].add(h64(('big', sc['big'], sc['d'], order[0], cname)))
-                what = 'del atoms[%s of %d scattered indices] on %d atoms' % (cname, len(S), sc['big'])
+                what = 'del atoms[%s of %d indices %s] on %d atoms%s' % (cname, len(S), (S[:3] + ['...'] if len(S) > 3 else S), sc['big'], ' (fully bonded chain)' if 'chain' in sc else '')
                 if err:
                     out['violations'].append(viol('delete-exact', 'del-exc:' + exc_sig(err), '%s raised %r' % (what, err[0]), sc, tb=err[1])); continue
                 check_after(a, ref, sc, what, out)
